@@ -493,6 +493,8 @@ func reportCmd(args []string) error {
 			}
 			outS := "?"
 			switch {
+			case exit != 0 && !quiet:
+				outS = "unconstrained" // a failing invocation that is not --quiet: no property says what standard output holds
 			case varsL && (quiet || js), builtinClean:
 				outS = "nonempty"
 				if stdout == "" {
